@@ -69,6 +69,10 @@ CHECKS = {
    text="NoiseLayer.tla models the protocol state machine, the shared incoming-segments queue, the flush lock, one handshake worker per login attempt, the network thread, a server for the variants XX / IK / IK-with-new-key / failing authentication, disconnects and reconnects, one action per shared-state operation; TLC exhaustively checks in-order exactly-once delivery, key persistence, failure reporting and - under weak fairness - that every attempt that is not cut off establishes the session or reports failure, for 1 attempt x 2 frames and 2 attempts x 1 frame; the as-read switch (transport state shared across attempts) must violate it. The real network|segments|noise|coder stack is then run against a dissononce-based Noise server double under the deterministic scheduler: all variants x chunkings (whole / byte-wise / random) x edge-routing on/off x fair, PCT-random and all one-preemption schedules, and reconnect scripts with the first attempt cut before, during or after the server's reply; each execution is judged on observables (stanzas at the top, frames decrypted by the strict peer, decoded login payload, key in the profile and on disk, failure stanza/event, no blocked thread) and its event trace is validated by TLC against NoiseLayer_Trace.tla.",
    note="Noise is symbolic in the model and real (consonance/dissononce) in the executions. Preemption at queue / lock operations and at instrumented protocol-state reads/writes; a disconnect racing with a receive() in progress is not explored. Reconnect scripts are sampled in the quick tier.",
    technique="TLA+ spec + TLC (safety and liveness); deterministic-scheduler exploration of the real stack with TLC trace validation of every execution"),
+ "C16": dict(level="model_checking", design="4/C16",
+   text="Lifecycle.tla models the network layer's state and connected flag, dispatcher creation, the atomic login, success / failure / stream-error handling, the interface layer's reconnect decision, the detached DISCONNECTED event and the stack loop, and the keep-alive (ping queue, request registry, thread); TLC exhaustively checks all event histories up to 7 (thorough 9) events for the four option combinations against: announcements up/down pair up, one login per connect, one authed per success, nothing written to a closed connection, fresh transport state at every login, errors close, reconnect iff (stream error, not conflict, option on), ping-timeout rule. A transition cover of each graph is replayed on the real default stack (fake dispatcher, Noise server double with real encrypted success / failure / stream:error / pong stanzas, real YowInterfaceLayer) under the deterministic scheduler with virtual time; after every event the application-visible log, dispatcher calls and flags are compared, and after every history extra ping periods must change nothing once the keep-alive is stopped.",
+   note="The login handshake is atomic here (C04). Connect requests overtaking a pending (detached) DISCONNECTED event are a recorded known finding and are replayed as dedicated scenarios. The two real dispatchers (asyncore / socket) are replaced by the fake dispatcher.",
+   technique="TLA+ spec + TLC exhaustive model checking of event histories; behaviour replay into the real default stack under a deterministic scheduler with virtual time"),
 }
 NA_REASON = "check not built yet in this session (planned: see DESIGN.md section 4)"
 
